@@ -51,8 +51,8 @@ def run(db, chk):
         chk.ob("suffix-appended-to-own-extension", "add_lock_suffix", ok, "with_extension must be applied to the resource with an extension derived from resource.extension()", we[0].where(), key="suffix-appended-to-own-extension")
     uses = db.const_uses(["gix_lock"]).get("gix_lock::DOT_LOCK_SUFFIX", [])
     clo = {re.sub(r"::\{promoted#\d+\}$", "", f.name) for f, bi, ctx in uses}
-    need = {c.name for c in db.closures_of(als) if c.kind == "closure"}
-    chk.ob("suffix-constant", "add_lock_suffix closures use DOT_LOCK_SUFFIX", need and need <= clo, "closures %s, users %s" % (sorted(need), sorted(clo)), key="suffix-constant")
+    fam = {als.name} | {c.name for c in db.closures_of(als)}
+    chk.ob("suffix-constant", "add_lock_suffix (or its closures) builds the extension from DOT_LOCK_SUFFIX", bool(fam & clo), "users of the constant: %s" % sorted(clo), key="suffix-constant")
     c = db.const("gix_lock::DOT_LOCK_SUFFIX")
     chk.ob("spec-constant", "DOT_LOCK_SUFFIX", bytes.fromhex(c["bytes"]) == b".lock", "", "%s:%d" % (c["file"], c["line"]), key="spec-constant|DOT_LOCK_SUFFIX")
     for rp in db.find(r"^gix_lock::file::<impl gix_lock::(File|Marker)>::resource_path$"):
